@@ -267,3 +267,23 @@ def check(chk):
                       'the column name inside %s is inserted raw: a name that needs quoting (mixed case, reserved word) is emitted bare and reads back as a different identifier' % n_.left.value)
     if n_w < 2:
         raise AnalysisError('_build_index_metadata: keys() / full() targets not found (%d)' % n_w)
+
+    # argument names appear twice in CREATE FUNCTION (the parameter list and MONOTONIC ON <arg>): both places name the same identifier
+    chk.rule('C27.args', 'Function.as_cql_query quotes the MONOTONIC ON argument like the argument list (protect_name)')
+    fq = meta.func('Function.as_cql_query')
+    uses = [a for a in body_walk(fq) if isinstance(a, ast.Attribute) and a.attr == 'monotonic_on' and src(a.value) == 'self']
+    from ..core import parent as _par2
+    raw = []
+    for a in uses:
+        p_ = _par2(a)
+        if not isinstance(p_, ast.Subscript):
+            continue           # truthiness test
+        q_ = _par2(p_)
+        wrapped = isinstance(q_, ast.Call) and isinstance(q_.func, ast.Name) and q_.func.id in ('protect_name', 'escape_name', 'maybe_escape_name')
+        if not wrapped:
+            raw.append(p_)
+    if not any(isinstance(_par2(a), ast.Subscript) for a in uses):
+        raise AnalysisError('Function.as_cql_query: use of self.monotonic_on[...] not found')
+    chk.judge(not raw, 'C27.args', fq, 'MONOTONIC ON <arg> goes through protect_name',
+              'the argument name after MONOTONIC ON is inserted raw (%s) while the parameter list quotes it: an argument that needs quoting (mixed case, reserved word) '
+              'reads back as a different identifier' % [src(x) for x in raw])
